@@ -294,23 +294,41 @@ package hackpadfs
 //@   nopanic
 
 
-// MkdirAll: the native and mount branches are exact; the fallback (a loop of Mkdir / Stat calls over the prefixes of the
-// path) is only proved to refuse invalid names before touching anything, to return typed errors and not to panic.
+// MkdirAll: the native and mount branches are exact. The fallback (a loop of Mkdir / Stat calls over the prefixes of the
+// path and the path itself) refuses invalid names before touching anything, returns typed errors and does not panic;
+// for a single-element path its outcome is stated in full: created, already a directory (success, as with a native
+// MkdirAll: C08), already something else (ErrNotDir), or the error of Mkdir.
+//@ spec maMkErr(fs FS, p string, perm FileMode) := ret("hackpadfs.Mkdir", 0, fs, p, perm)
+//@ spec maW1(fs FS, p string, perm FileMode) := worldAfter("hackpadfs.Mkdir", fs, p, perm)
+//@ spec maExists(fs FS, p string, perm FileMode) := isPathError(maMkErr(fs, p, perm)) && errIs(maMkErr(fs, p, perm), ErrExist)
+//@ spec maStatErr(fs FS, p string, perm FileMode) := retW("hackpadfs.Stat", 1, maW1(fs, p, perm), fs, pathOf(maMkErr(fs, p, perm)))
+//@ spec maStatInfo(fs FS, p string, perm FileMode) := retW("hackpadfs.Stat", 0, maW1(fs, p, perm), fs, pathOf(maMkErr(fs, p, perm)))
+//@ spec maW2(fs FS, p string, perm FileMode) := worldAfterW("hackpadfs.Stat", maW1(fs, p, perm), fs, pathOf(maMkErr(fs, p, perm)))
+//@ spec maIsDir(fs FS, p string, perm FileMode) := retW("hackpadfs.(FileInfo).IsDir", 0, maW2(fs, p, perm), maStatInfo(fs, p, perm))
+//@ spec maFallbackLeaf(fs FS, p string) := !implements(fs, MkdirAllFS) && !implements(fs, MountFS) && VP(p) && !contains(p, "/")
+//@ spec maExistsDir(fs FS, p string, perm FileMode) := maExists(fs, p, perm) && maStatErr(fs, p, perm) == nil && maIsDir(fs, p, perm)
+
 //@ func MkdirAll(fs FS, path string, perm FileMode) (err error)
 //@   props C06 C07 C08 C04 C05
 //@   deterministic
 //@   requires fs != nil
-
-//@   loop 1 invariant "bounds" 0 <= i && i <= len(path) && VP(path) && fs != nil && !implements(fs, MkdirAllFS) && !implements(fs, MountFS)
-//@   loop 1 invariant "quiet" implies(!contains(path, "/"), world() == old(world()))
-//@   loop 1 decreases len(path) - i
+//@   loop 1 invariant "bounds" 0 <= i && i <= len(path) + 1 && VP(path) && fs != nil && !implements(fs, MkdirAllFS) && !implements(fs, MountFS)
+//@   loop 1 invariant "quiet" implies(!contains(path, "/") && i <= len(path), world() == old(world()))
+//@   loop 1 invariant "leaf-done" implies(!contains(path, "/") && i == len(path) + 1, (old(maMkErr(fs, path, perm)) == nil && world() == old(maW1(fs, path, perm))) ||
+//@                      (old(maExistsDir(fs, path, perm)) && world() == old(maW2(fs, path, perm))))
+//@   loop 1 decreases len(path) + 1 - i
 //@   ensures "native" implies(implements(fs, MkdirAllFS), err == old(ret("hackpadfs.(MkdirAllFS).MkdirAll", 0, fs, path, perm)) &&
 //@                      world() == old(worldAfter("hackpadfs.(MkdirAllFS).MkdirAll", fs, path, perm)))
 //@   ensures "mount" implies(!implements(fs, MkdirAllFS) && implements(fs, MountFS), translated(err, old(ret("hackpadfs.MkdirAll", 0, mountOf(fs, path), subOf(fs, path), perm)), path, old(subOf(fs, path))) &&
 //@                      world() == old(worldAfter("hackpadfs.MkdirAll", mountOf(fs, path), subOf(fs, path), perm)))
 //@   ensures "gate" implies(!implements(fs, MkdirAllFS) && !implements(fs, MountFS) && !VP(path), isPathError(err) && pathOf(err) == path && errIs(err, ErrInvalid) && world() == old(world()))
-//@   ensures "leaf" [C08] implies(!implements(fs, MkdirAllFS) && !implements(fs, MountFS) && VP(path) && !contains(path, "/"),
-//@                      err == old(ret("hackpadfs.Mkdir", 0, fs, path, perm)) && world() == old(worldAfter("hackpadfs.Mkdir", fs, path, perm)))
+//@   ensures "leaf-created" [C08] implies(maFallbackLeaf(fs, path) && old(maMkErr(fs, path, perm)) == nil, err == nil && world() == old(maW1(fs, path, perm)))
+//@   ensures "leaf-exists-dir" [C08] implies(maFallbackLeaf(fs, path) && old(maExists(fs, path, perm)) && old(maStatErr(fs, path, perm)) == nil && old(maIsDir(fs, path, perm)),
+//@                      err == nil && world() == old(maW2(fs, path, perm)))
+//@   ensures "leaf-exists-other" [C08] implies(maFallbackLeaf(fs, path) && old(maExists(fs, path, perm)) && old(maStatErr(fs, path, perm)) == nil && !old(maIsDir(fs, path, perm)),
+//@                      isPathError(err) && errIs(err, ErrNotDir))
+//@   ensures "leaf-error" [C08] implies(maFallbackLeaf(fs, path) && old(maMkErr(fs, path, perm)) != nil && !(old(maExists(fs, path, perm)) && old(maStatErr(fs, path, perm)) == nil),
+//@                      err == old(maMkErr(fs, path, perm)))
 //@   nopanic
 
 // RemoveAll: native and mount branches exact. The fallback recursion is only pinned down where its sequence of
